@@ -74,7 +74,7 @@ fn case_strategy(_tier: Tier) -> BoxedStrategy<RcCase> {
     let outcome = prop_oneof![3 => Just(0u8), 5 => Just(1u8), 2 => Just(2u8)];
     let script = prop::collection::vec((prop_oneof![2 => Just(0u64), 1 => 0u64..=10], outcome), 1..=10);
     let general = (
-        prop_oneof![4 => (0u32..=5).prop_map(Some), 1 => Just(None)],
+        prop_oneof![8 => (0u32..=5).prop_map(Some), 2 => Just(None), 1 => Just(Some(u32::MAX)), 1 => Just(Some(u32::MAX - 1))],
         policy,
         prop::bool::weighted(0.75),
         any::<bool>(),
@@ -87,8 +87,9 @@ fn case_strategy(_tier: Tier) -> BoxedStrategy<RcCase> {
         ),
     )
         .prop_map(|(max_attempts, policy, retry_on_reconnect, predicate, mut requests, concurrent, step_ms, (starts, setter_order))| {
-            if max_attempts.is_none() {
-                // unlimited attempts: make every script end in a success so the case terminates
+            if max_attempts.map_or(true, |m| m > 1_000) {
+                // unlimited (or practically unlimited) attempts: make every script end in a
+                // success so the case terminates
                 for s in requests.iter_mut() {
                     s.push((0, 0));
                 }
@@ -236,7 +237,7 @@ async fn interp(case: &RcCase) -> Verdict {
             .policy(ReconnectPolicy::fixed(Duration::from_millis(777)))
             .retry_on_reconnect(!case.retry_on_reconnect);
         b0 = match case.max_attempts {
-            Some(m) => b0.max_attempts(m + 3).unlimited_attempts(),
+            Some(m) => b0.max_attempts(m.saturating_add(3)).unlimited_attempts(),
             None => b0.max_attempts(1),
         };
     }
@@ -418,10 +419,10 @@ async fn interp(case: &RcCase) -> Verdict {
             let _ = t;
         }
         if let Some(m) = case.max_attempts {
-            if nent as u32 > m + 1 {
+            if nent as u64 > m as u64 + 1 {
                 violations.push(format!(
                     "request {i}: {nent} inner calls, max_attempts+1 = {}",
-                    m + 1
+                    m as u64 + 1
                 ));
             }
         }
